@@ -52,18 +52,18 @@ type OSFS struct{}
 
 var _ FS = OSFS{}
 
-func (OSFS) Chdir(dir string) error                     { return os.Chdir(dir) }
-func (OSFS) Chmod(name string, mode fs.FileMode) error  { return os.Chmod(name, mode) }
-func (OSFS) Chown(name string, uid, gid int) error      { return os.Chown(name, uid, gid) }
-func (OSFS) Chtimes(name string, a, m time.Time) error  { return os.Chtimes(name, a, m) }
-func (OSFS) EvalSymlinks(path string) (string, error)   { return filepath.EvalSymlinks(path) }
-func (OSFS) Getwd() (string, error)                     { return os.Getwd() }
-func (OSFS) Glob(pattern string) ([]string, error)      { return filepath.Glob(pattern) }
-func (OSFS) Lchown(name string, uid, gid int) error     { return os.Lchown(name, uid, gid) }
-func (OSFS) Link(o, n string) error                     { return os.Link(o, n) }
-func (OSFS) Lstat(name string) (fs.FileInfo, error)     { return os.Lstat(name) }
-func (OSFS) Mkdir(name string, perm fs.FileMode) error  { return os.Mkdir(name, perm) }
-func (OSFS) MkdirAll(p string, perm fs.FileMode) error  { return os.MkdirAll(p, perm) }
+func (OSFS) Chdir(dir string) error                    { return os.Chdir(dir) }
+func (OSFS) Chmod(name string, mode fs.FileMode) error { return os.Chmod(name, mode) }
+func (OSFS) Chown(name string, uid, gid int) error     { return os.Chown(name, uid, gid) }
+func (OSFS) Chtimes(name string, a, m time.Time) error { return os.Chtimes(name, a, m) }
+func (OSFS) EvalSymlinks(path string) (string, error)  { return filepath.EvalSymlinks(path) }
+func (OSFS) Getwd() (string, error)                    { return os.Getwd() }
+func (OSFS) Glob(pattern string) ([]string, error)     { return filepath.Glob(pattern) }
+func (OSFS) Lchown(name string, uid, gid int) error    { return os.Lchown(name, uid, gid) }
+func (OSFS) Link(o, n string) error                    { return os.Link(o, n) }
+func (OSFS) Lstat(name string) (fs.FileInfo, error)    { return os.Lstat(name) }
+func (OSFS) Mkdir(name string, perm fs.FileMode) error { return os.Mkdir(name, perm) }
+func (OSFS) MkdirAll(p string, perm fs.FileMode) error { return os.MkdirAll(p, perm) }
 func (OSFS) MkdirTemp(dir, pattern string) (string, error) {
 	return os.MkdirTemp(dir, pattern)
 }
